@@ -38,8 +38,8 @@ ASSUMPTIONS = ["the fresh object is configured in the order set_circuit, set_cut
 EXPLANATION = ("coherence of the cached state with the configuration is proved by invariant induction over all "
                "histories for the SLOS machine of the current code ((fixA, fixB) = (true, true), /repo 1c6530fa), the "
                "keyed caches, the MPS bond dimension (3d5f407f) and the Simulator leftover mask (bc7ab4f9); the witnesses "
-               "of the code before those commits are _old_code theorems and regression histories of this driver; still "
-               "refuted: vacuum input first under a mask with an explicit n (crash), Processor default filter")
+               "of the code before those commits (and before f2cccc2b) are _old_code theorems and regression histories of "
+               "this driver; still open: Processor default filter stored by the first query")
 
 WORKER = os.path.join(os.path.dirname(os.path.abspath(__file__)), "c05_worker.py")
 TOL = 1e-9
@@ -508,7 +508,7 @@ def nontrivial_history(h, k):
     n_in = len({tuple(op[1]) if op[0] == "in" else None for op in h[:k] if op[0] == "in"})
     return kinds.count("circ") > 1 or n_in > 1 or any(x in kinds for x in
                                                      ("mask", "clear", "cutoff", "heralds", "param", "noise", "add",
-                                                      "filter", "postselect", "clear_heralds"))
+                                                      "filter", "postselect", "clear_heralds", "pinput"))
 
 
 # ------------------------------------------------------------------------------------------------ shrinking
@@ -567,7 +567,7 @@ def check_backend_stream(ctx, name, circs, hists, stream, with_model):
     for k, r in zip(keys, fres):
         if len(r) < len(fresh_req[k]):
             fresh[k] = {"c": r[-1]["c"] if r and r[-1]["c"] == "crash" else "err"}
-    # the code as it is now = the machine with both repairs (/repo commit 1c6530fa); 0 = the code before it
+    # the code as it is now = the machine with the three repairs (/repo 1c6530fa, f2cccc2b); 0 = the code before them
     model = slos_model_steps(ctx, hists, circs, 1) if with_model else None
     repaired = model
 
@@ -593,9 +593,8 @@ def check_backend_stream(ctx, name, circs, hists, stream, with_model):
                 fs = fr[-1] if len(fr) == len(fh) else {"c": "err"}
                 if same_step(hs, fs, tol):
                     continue
-                s2 = slos_signature(hs, fs, c2, cand) if name == "SLOS" else (
-                    "mps-cutoff-persists" if name == "MPS" and hs["c"] == "ok" and fs["c"] == "ok"
-                    else generic_signature(name.lower(), hs, fs))
+                s2 = (slos_signature(hs, fs, c2, cand) if name == "SLOS"
+                      else generic_signature(name.lower(), hs, fs))
                 if s2 == sig:
                     good.append(i)
             return good
@@ -614,9 +613,8 @@ def check_backend_stream(ctx, name, circs, hists, stream, with_model):
         if not same_step(hs, fs, tol):
             cfg = BCfg()
             cfg.circ, cfg.mask, cfg.cutoff, cfg.inp = cfgt
-            sig = slos_signature(hs, fs, cfg, h[:k + 1]) if name == "SLOS" else (
-                "mps-cutoff-persists" if name == "MPS" and hs["c"] == "ok" and fs["c"] == "ok"
-                else generic_signature(name.lower(), hs, fs))
+            sig = (slos_signature(hs, fs, cfg, h[:k + 1]) if name == "SLOS"
+                   else generic_signature(name.lower(), hs, fs))
             ctx.count(f"{name}.differs-from-fresh")
             if sig not in reported:
                 reported.add(sig)
@@ -680,10 +678,6 @@ def check_backend_stream(ctx, name, circs, hists, stream, with_model):
         for hi, k, key, cfgt in per_query:
             rs = repaired[hi][k][0]
             fs = fresh[key]
-            if any((op[0] == "in" and sum(op[1]) == 0) or (op[0] == "q" and op[1] == "allprob_in" and sum(op[2]) == 0)
-                   for op in hists[hi][:k + 1]):
-                continue      # a vacuum input: outside the positive theorem ([photonic] in Props/C05.v); under a mask
-                              # that needs photons it leaves an empty level-0 array behind (crash on the next input)
             ctx.count("SLOS.repaired-vs-fresh")
             if not same_step(rs, fs, tol):
                 if "slos-repaired" not in reported:
@@ -813,7 +807,7 @@ def check_generic_stream(ctx, target, label, cdesc, hists, fresh_of, signature_o
 
     def failing_subset(sig):
         def f(cands):
-            rs = run_histories(target, cdesc, cands, whitebox=False, jobs=4)
+            rs = run_histories(target, cdesc, cands, whitebox=True, jobs=4)
             fhs = [fresh_of(c, len(c) - 1, r) for c, r in zip(cands, rs)]
             idx = [i for i, fh in enumerate(fhs) if fh is not None and len(rs[i]) == len(cands[i])]
             frs = run_histories(target, cdesc, [fhs[i] for i in idx], whitebox=False, jobs=4)
@@ -1026,6 +1020,30 @@ def stepper_streams(ctx, rng, n):
     check_generic_stream(ctx, "stepper", "Stepper", cdesc, hists, fresh_of, sig, "stepper")
 
 
+POLARIZING = ("PR", "WP", "HWP", "QWP", "PBS")
+POL_STATES = {2: ["|{P:H},0>", "|{P:H},{P:V}>", "|{P:D},0>"], 3: ["|{P:H},0,0>", "|{P:H},{P:V},0>", "|0,{P:D},0>"]}
+
+
+def rand_component(rng, m):
+    """[offset, kind, args] of a component of any public class: unitary, polarization (needs another simulation
+    layer than a plain circuit), loss channel (idem)."""
+    kind = rng.choice(["BS", "BS", "PS", "PERM", "PR", "WP", "HWP", "QWP", "PBS", "LC"])
+    if kind == "BS":
+        lf = gen.rand_leaf(rng, 2, kinds=("BS",))
+        return [rng.below(m - 1), "BS", [lf.args[0], lf.args[1], list(lf.args[2])]]
+    if kind == "PS":
+        return [rng.below(m), "PS", [round(0.2 + 0.31 * rng.below(9), 6)]]
+    if kind == "PERM":
+        return [rng.below(m - 1), "PERM", [[1, 0]]]
+    if kind == "PBS":
+        return [rng.below(m - 1), "PBS", []]
+    if kind == "LC":
+        return [rng.below(m), "LC", [rng.choice([0.1, 0.3, 0.5])]]
+    if kind == "WP":
+        return [rng.below(m), "WP", [round(0.2 + 0.3 * rng.below(6), 6), round(0.1 + 0.25 * rng.below(6), 6)]]
+    return [rng.below(m), kind, [round(0.2 + 0.3 * rng.below(6), 6)]]
+
+
 def processor_streams(ctx, rng, n, backend="SLOS"):
     descs, hists = [], []
     for _ in range(n):
@@ -1035,7 +1053,7 @@ def processor_streams(ctx, rng, n, backend="SLOS"):
         ci = len(descs) - 1
         h = [["new", ci], ["input", rng.choice([x for x in SIM_STATES[m] if isinstance(x, list)])]]
         for _ in range(rng.rint(2, 6)):
-            r = rng.below(14)
+            r = rng.below(15)
             if r < 3:
                 h.append(["param", rng.choice(names), rng.choice([0.3, 1.1, 2.5, 0.9])])
             elif r < 5:
@@ -1046,8 +1064,9 @@ def processor_streams(ctx, rng, n, backend="SLOS"):
             elif r < 7:
                 h.append(["input", rng.choice([x for x in SIM_STATES[m] if isinstance(x, list)])])
             elif r < 8:
-                lf = gen.rand_leaf(rng, 2, kinds=("BS",))
-                h.append(["add", [rng.below(m - 1), "BS", [lf.args[0], lf.args[1], list(lf.args[2])]]])
+                h.append(["add", rand_component(rng, m)])
+                if h[-1][1][1] in POLARIZING and rng.chance(1, 2):
+                    h.append(["pinput", rng.choice(POL_STATES[m])])
             elif r < 9:
                 h.append(["postselect", rng.choice(["[0] < 2", "[1] == 1", "[0] > 0"])])
             elif r < 10:
@@ -1075,7 +1094,7 @@ def processor_streams(ctx, rng, n, backend="SLOS"):
                 noise = op
             elif op[0] == "filter":
                 filt = op
-            elif op[0] == "input":
+            elif op[0] in ("input", "pinput"):
                 inp = op
             elif op[0] == "postselect":
                 ps = op
@@ -1090,10 +1109,18 @@ def processor_streams(ctx, rng, n, backend="SLOS"):
         explicit = any(op[0] == "filter" for op in h[:k])
         queried = any(op[0] == "q" for op in h[:k])
         if not explicit and queried and hs["c"] != "crash":
-            return "processor-auto-filter-set-by-first-query-persists"
+            # the open finding, and only it: the filter stored by the first query is not the default a fresh processor
+            # would choose now (another photon number), or a fresh processor has no default at all (imperfect source)
+            inp = [op[1] for op in h[:k] if op[0] in ("input", "pinput")]
+            cur_n = None if not inp else (sum(inp[-1]) if isinstance(inp[-1], list) else inp[-1].count("P:"))
+            stored = hs.get("w", {}).get("min_filter")
+            if (stored is not None and stored != cur_n) or (fs["c"] == "err" and fs.get("e") == "ValueError"
+                                                            and "min_detected_photons" in fs.get("msg", "")):
+                return "processor-auto-filter-set-by-first-query-persists"
         if hs["c"] != fs["c"]:
             return f"processor-{hs['c']}-where-fresh-{fs['c']}"
-        kinds = sorted({op[0] for op in h[:k] if op[0] not in ("new", "input", "q")})
+        kinds = sorted({(op[0] + "-" + op[1][1]) if op[0] == "add" else op[0]
+                        for op in h[:k] if op[0] not in ("new", "input", "pinput", "q")})
         return "processor-result-depends-on-history-after-" + "+".join(kinds)
     check_generic_stream(ctx, "processor:" + backend, "Processor", cdesc, hists, fresh_of, sig, "processor", tol=1e-8)
 
@@ -1110,7 +1137,7 @@ def corpus(circs4):
             [["circ", 0], ["mask", ["2*"], None], ["in", [1, 0]], ["in", [1, 1]], ["q", "dist"]],
             [["circ", 2], ["mask", ["011"], None], ["in", [0, 0, 1]], ["q", "dist"], ["in", [1, 1, 0]], ["q", "dist"]],
             [["circ", 5], ["mask", ["**1*"], None], ["in", [1, 1, 0, 0]], ["in", [1, 1, 1, 0]], ["q", "dist"]],
-            # still open: vacuum input first under a mask with an explicit n that needs more photons
+            # vacuum input first under a mask with an explicit n that needs more photons (crashed before f2cccc2b)
             [["circ", 0], ["mask", ["2*"], 1], ["in", [0, 0]], ["in", [1, 0]], ["q", "dist"]],
             # same with mask_n None: the mask instance changes, the state space is rebuilt (no crash since 1c6530fa)
             [["circ", 0], ["mask", ["2*"], None], ["in", [0, 0]], ["in", [1, 0]], ["q", "dist"]],
